@@ -189,7 +189,7 @@ def install_add_node(reg):
 
     reg.add(Contract(MG + ':AttackGraph.add_node', {'self': Obj(GRAPH), 'node': Obj(NODE), 'node_id': T('int', opt=True)},
                      requires=requires, ensures=ensures, raises={'ValueError': raise_cond},
-                     modifies=LIST_ARRAYS + DICT_ARRAYS + ('f_id', 'f_next_node_id'), props=('C09', 'C02'), param_defaults={'node_id': None}))
+                     modifies=LIST_ARRAYS + DICT_ARRAYS + ('f_id', 'f_next_node_id'), props=('C09', 'C02', 'C10'), param_defaults={'node_id': None}))
 
 
 # ---------------------------------------------------------------------------------------------------
@@ -354,7 +354,7 @@ def install_add_attacker(reg):
                      raises={'ValueError': (raise_value, exc_ens), 'AttackGraphException': (raise_missing, exc_ens)},
                      modifies=LIST_ARRAYS + DICT_ARRAYS + ('cls', 'own_obj', 'own_fld', 'f_id', 'f_next_attacker_id'), allocates=True,
                      loops={0: LoopSpec(collect_inv('reached_nodes', 'reached_attack_steps')), 1: LoopSpec(inv1), 2: LoopSpec(inv2)},
-                     props=('C09', 'C11')))
+                     props=('C09', 'C11', 'C10')))  # C10: _from_dict (assumed) rebuilds every attacker through add_attacker
 
 
 _install_prev = install
